@@ -533,7 +533,8 @@ def index_flags(r, ix, shape):
 
 
 def index_core(r, k, x1, x2, ix, D, ctx: Ctx):
-    """compare kernel(x1,x2)[idx] with D[idx]; D is the dense value of kernel(x1, x2)"""
+    """compare kernel(x1,x2)[idx] with D[idx]; D is the dense value of kernel(x1, x2); k may be a zero-argument callable
+    that builds the kernel (only called when the expression is in the domain)"""
     fl = index_flags(r, ix, list(D.shape))
     if fl["neg_matrix_int"]:
         # excluded from the domain (DESIGN C06): linear_operator's LinearOperator.__getitem__ turns a negative integer on a
@@ -563,6 +564,9 @@ def index_core(r, k, x1, x2, ix, D, ctx: Ctx):
     if outs(r) > 1:
         ctx.label("idx.multi=" + ("aligned-slices" if fl["aligned_slice"] else "unaligned-slice" if fl["unaligned"] else "other"))
     ctx.set_nontrivial((fl["touches_batch"] and (per_batch(r) or has_ad(r))) or fl["unaligned"] or fl["tensor"])
+    if not isinstance(k, torch.nn.Module):
+        with ctx.observing("build"):
+            k = k()
     with ctx.observing("getitem"):
         lz = k(x1, x2)
         got = lz[idx[0]] if len(idx) == 1 else lz[idx]
@@ -788,16 +792,17 @@ _DENSE = {}
 
 def run_index_enum(case, ctx: Ctx):
     name = case["setup"]
-    c = fixed_case(name)
-    r, k, x1, x2 = prepare(c, ctx)
     ctx.cls = f"enum:{name}"
-    D = _DENSE.get(name)
-    if D is None:
+    ent = _DENSE.get(name)
+    if ent is None:
+        c = fixed_case(name)
+        r, x1, x2 = c["kernel"], T(c["x1"]), T(c["x2"])
         with ctx.observing("evaluate"):
             D = dense(build(r)(x1, x2)).detach()
-        _DENSE[name] = D  # a pure function of the setup name; the kernel itself is rebuilt for every case
+        ent = _DENSE[name] = (r, x1, x2, D)  # a pure function of the setup name; the kernel is rebuilt for every judged case
+    r, x1, x2, D = ent
     ctx.label(f"enum.setup={name}")
-    index_core(r, k, x1, x2, case["idx"], D, ctx)
+    index_core(r, lambda: build(r), x1, x2, case["idx"], D, ctx)
 
 
 EXH_NOTE = ("index.exhaustive: for each of the fixed kernel set-ups of pbt/props/c06.py (single-output, composed, MultitaskKernel, "
